@@ -18,7 +18,7 @@ LEVEL = "exploration"
 RULE = (
     "captured: pre/post optimisation graphs of G's cases (all families, numpy backends); enumerated: all ordered pairs of permutations up to rank 4 (quick) / 5 (thorough) as "
     "transpose chains with and without a second consumer of the intermediate and with distinct and equal axis lengths, all ordered pairs of factorisations of 12/16/24 as reshape chains, "
-    "random mixes (length <= 5) of transpose/reshape/broadcast_to/concatenate incl. no-op members, wrapper graphs for InlineGraph (every argument sequence of length 1-3 over 1-3 graph inputs x 7 non-commutative functions x {plain, keyword, literal argument}); distinct by (chain description); non-trivial if the "
+    "random mixes (length <= 5) of transpose/reshape/broadcast_to/concatenate/indexing with full, reversed and integer keys incl. no-op members, wrapper graphs for InlineGraph (every argument sequence of length 1-3 over 1-3 graph inputs x 7 non-commutative functions x {plain, keyword, literal argument}); distinct by (chain description); non-trivial if the "
     "optimiser changed the graph"
 )
 ASSUMPTIONS = ["the IR interpreter I defines what a graph computes", "inputs with distinct values; both all-distinct and all-equal axis lengths are used so that permutation mistakes show in shapes or in values"]
@@ -168,6 +168,8 @@ def run(spec, out):
                 cur = npsig.concatenate([cur], axis=st[1])
             elif st[0] == "concat2":
                 cur = npsig.concatenate([cur, cur], axis=st[1])
+            elif st[0] == "getitem":
+                cur = npsig.ndarray.__getitem__(cur, st[1])
             elif st[0] == "cast":
                 cur = tracer.cast(cur, lambda origin, s=tuple(cur.shape): T(origin, s))
             mids.append(cur)
@@ -183,7 +185,7 @@ def run(spec, out):
         passes = [0]
         import einx._src.tracer.optimizer.optimizer as optmod
         g2 = tracer.optimize(g, opts)
-        wit = {"shape": list(shape), "steps": [[s[0], list(s[1]) if isinstance(s[1], (tuple, list)) else s[1]] for s in steps], "share": share}
+        wit = {"shape": list(shape), "steps": [[s[0], [repr(k) for k in s[1]] if s[0] == "getitem" else (list(s[1]) if isinstance(s[1], (tuple, list)) else s[1])] for s in steps], "share": share}
         ch = compare_graphs(g, g2, lambda: [data(shape)], out, label, wit, optimizations=opts)
         if ch:
             out.distinct_key(f"{label}|{shape}|{steps}|{share}")
@@ -253,6 +255,14 @@ def run(spec, out):
                 s = extra + tuple(c if c != 1 else rng.choice([1, 2, 3]) for c in cur)
                 steps.append(("broadcast", s))
                 cur = s
+            elif r < 0.80 and len(cur) > 0:
+                # indexing with full / reversed slices and integers (what flip-by-indexing and get_at emit)
+                key = tuple(rng.choice([slice(None), slice(None), slice(None, None, -1), slice(None, None, -1), rng.randrange(c)]) for c in cur)
+                steps.append(("getitem", key))
+                cur = tuple(c for c, k_ in zip(cur, key) if isinstance(k_, slice))
+                out.count("mix_getitem_steps")
+                if any(isinstance(k_, slice) and k_.step == -1 for k_ in key):
+                    out.count("mix_reversed_slices")
             elif r < 0.85 and len(cur) > 0:
                 ax = rng.randrange(len(cur))
                 steps.append(("concat1", ax))
@@ -273,11 +283,11 @@ def run(spec, out):
     for nin in (1, 2, 3):
         for fname, mk, arity in FUNCS:
             for argidx in itertools.product(range(nin), repeat=arity):
-                for extra in ("none", "kwarg", "literal"):
+                for extra in ("none", "kwarg", "literal", "assert-pass", "assert-fail"):
                     k += 1
                     if k % spec["parts"] != spec["part"]:
                         continue
-                    if extra != "none" and fname not in ("subtract", "const2"):
+                    if extra in ("kwarg", "literal") and fname not in ("subtract", "const2"):
                         continue
                     xs = [T(None, (2, 3)) for _ in range(nin)]
                     args = [xs[j] for j in argidx]
@@ -289,7 +299,12 @@ def run(spec, out):
                     if extra == "literal":
                         args = args[:-1] + [3.0]
                     try:
-                        g = tracer.Graph(xs, P.call(mk(), args, kwargs), name="op")
+                        res = P.call(mk(), args, kwargs)
+                        if extra.startswith("assert"):
+                            # the run-time checks einx puts on values returned by user functions: they must survive optimisation
+                            res = P.assert_(res, P.equal(P.call(P.builtins.len, [res]), 2 if extra == "assert-pass" else 5), "length")
+                            out.count("wrapper_with_assert")
+                        g = tracer.Graph(xs, res, name="op")
                         g2 = tracer.optimize(g, opts)
                     except Exception:  # noqa
                         out.count("wrapper_build_failed")
@@ -308,7 +323,7 @@ def run(spec, out):
 
 def finalize(agg, tier, seed):
     c = agg.counters
-    for k in ("pre_equals_post:captured", "pre_equals_post:transpose-pair", "pre_equals_post:reshape-pair", "pre_equals_post:mix", "optimiser_changed_graph", "fixed_point", "pre_equals_post:wrapper", "wrapper_inlined", "wrapper_kept"):
+    for k in ("pre_equals_post:captured", "pre_equals_post:transpose-pair", "pre_equals_post:reshape-pair", "pre_equals_post:mix", "optimiser_changed_graph", "fixed_point", "pre_equals_post:wrapper", "wrapper_inlined", "wrapper_kept", "wrapper_with_assert", "mix_reversed_slices"):
         if c.get(k, 0) < (50 if "wrapper_" not in k else 5):
             agg.inconclusive.append(f"monitor counter {k} = {c.get(k, 0)}")
     maxrank = 4 if tier == "quick" else 5
